@@ -32,7 +32,7 @@ ASSUMPTIONS = ['direct execution of the instruction list on ndarray / UTPM opera
                'comparison is rtol 1e-13 (bit-identical in practice; the count of non-bit-identical results is reported)']
 
 DEPTH = {'quick': 2, 'thorough': 3}
-REC_KINDS = ['nd', 'u11', 'u22', 'u11+pause', 'u11+interleave', 'nd+split', 'u22+split']
+REC_KINDS = ['nd', 'u11', 'u22', 'u11+pause', 'u11+interleave', 'nd+split', 'u22+split', 'u11+pause_other']
 INPUTS = [('nd', 0), ('nd', 1), ('u11', 0), ('u22', 0), ('u31', 1)]
 CHUNK = 30
 
@@ -114,6 +114,22 @@ def other_graph():
 
 
 def pauser(cg, pause, probe, other=None):
+    if other == 'pause_other':
+        # recording is switched off through ANOTHER graph object (trace_off is a process-wide switch), an operation is
+        # executed on a traced operand (must not be recorded anywhere) and recording of the graph under test is resumed
+        if pause is None:
+            return None
+        side = CGraph()          # becomes the recording target for a moment ...
+        Function.cgraph = cg     # ... and the graph under test is made the target again, as trace_on() does
+        def before_o(k, regs):
+            if k == pause:
+                n = len(cg.functionList)
+                side.trace_off()
+                junk = probe * 3.0 + 1.0
+                if len(cg.functionList) != n or len(side.functionList) != 0:
+                    raise AssertionError('recorded-while-off')
+                cg.trace_on()
+        return before_o
     if other is not None:
         # recording mode 'interleave at k': while the graph under test is recording, a previously recorded (switched-off)
         # graph is re-evaluated and differentiated; recording of the graph under test must simply go on
@@ -187,7 +203,7 @@ def setup_split(prog, x0):
 
 
 def record_plain(prog, x0, pause=None, interleave=False, split=False):
-    other = other_graph() if interleave else None
+    other = ('pause_other' if interleave == 'pause_other' else other_graph()) if interleave else None
     Function.cgraph = None
     cg = CGraph()
     if split:
@@ -210,7 +226,7 @@ def record_plain(prog, x0, pause=None, interleave=False, split=False):
 def record_checked(prog, x0, stats, pause=None, interleave=False, split=False):
     """record with logging; returns (cg, x, y, failures[list of (kind, detail)])"""
     fails = []
-    other = other_graph() if interleave else None
+    other = ('pause_other' if interleave == 'pause_other' else other_graph()) if interleave else None
     Function.cgraph = None
     with Log() as lg:
         cg = CGraph()
@@ -282,6 +298,8 @@ def split_kind(reckind):
         return reckind[:-11], 'interleave'
     if reckind.endswith('+split'):
         return reckind[:-6], 'split'
+    if reckind.endswith('+pause_other'):
+        return reckind[:-12], 'pause_other'
     return reckind, None
 
 
@@ -295,7 +313,7 @@ class Sys(object):
         x0 = make_input(rk, 3, seed)
         self.prog = prog
         self.split = (pause == 'split')
-        self.cg, self.x, self.y = record_plain(prog, x0, pause_index(prog, pause), interleave=(pause == 'interleave'), split=self.split)
+        self.cg, self.x, self.y = record_plain(prog, x0, pause_index(prog, pause), interleave=('pause_other' if pause == 'pause_other' else pause == 'interleave'), split=self.split)
 
 
 def state_key(sys_):
@@ -323,7 +341,7 @@ def explore_program(prog, reckind, tier, seed, only_history=None):
         return None, {'skip': 'forward_unsupported'}, stats
     split = (pause == 'split')
     try:
-        cg, x, y, rfails = record_checked(prog, x0, stats, pause_index(prog, pause), interleave=(pause == 'interleave'), split=split)
+        cg, x, y, rfails = record_checked(prog, x0, stats, pause_index(prog, pause), interleave=('pause_other' if pause == 'pause_other' else pause == 'interleave'), split=split)
     except AssertionError as e:
         Function.cgraph = None
         if 'recorded-while-off' in str(e) or 'recording-target-changed' in str(e):
